@@ -195,6 +195,9 @@ func XferSpecial(args []string) {
 				res.AddViolation(map[string]any{"property": "C01", "kind": "both_succeed_tree_differs", "tree": "file-beyond-4GiB"}, detail)
 			} else if kind == "trouble" {
 				res.AddDrift(detail)
+			} else if kind == "failed loudly" {
+				// nothing is wrong with the peers or the network: the transfer has to complete (C03)
+				res.AddViolation(map[string]any{"property": "C03", "kind": "healthy_transfer_failed", "tree": "file-beyond-4GiB"}, detail)
 			}
 		}
 	}
